@@ -261,8 +261,14 @@ IdOf(x) ==
     [] x.g = "cycnest" -> "cycnest-" \o ToString(x.outer) \o "-" \o ToString(x.len) \o "-" \o ToString(x.nvals) \o "-" \o ToString(x.grouped)
     [] x.g = "nest" -> "nest-" \o ToString(x.outer) \o "-" \o ToString(x.inner) \o "-" \o x.sig \o "-" \o ToString(x.at)
 
+\* the array the loop walks in other Go representations - a fixed-size array, a typed slice, behind a Drop or a pointer:
+\* the same items, the same selection by offset / limit / reversed
+CollReprs == <<"array", "ints", "drop", "ptr", "array", "int64s">>
 EmitCase == st.status # "run" =>
-          PrintT(ToJson([id |-> IdOf(c), kind |-> "render", prog |-> ProgOf(c), env |-> EnvOf2(c),
+       /\ (c.g \in {"grid", "signal", "tablerow", "rowsig"}) =>
+            PrintT(ToJson([id |-> "cr-" \o IdOf(c), kind |-> "render", prog |-> ProgOf(c), env |-> EnvOf2(c),
+                           repr |-> [a |-> CollReprs[(Len(IdOf(c)) % 6) + 1]]]))
+       /\ PrintT(ToJson([id |-> IdOf(c), kind |-> "render", prog |-> ProgOf(c), env |-> EnvOf2(c),
                          anyorder |-> IF c.g = "coll" /\ c.coll = "map3" THEN 3 ELSE 0]
                         \* a nil or empty collection in its typed Go forms
                         @@ (IF c.g = "coll" /\ c.coll \in {"nilmap", "nilslice", "nilptr", "dropnil", "dropempty"}
